@@ -173,3 +173,156 @@ NOT_COVERED = [
 ]
 EXPLANATION = ("Platform.find_include_file is proved to return the first existing candidate in compiler search order "
                "independently of the memo's history, under the memo invariant it re-establishes itself.")
+
+
+# =====================================================================
+# IncludeNode.evaluate_for_platform: which lookup is made, and what is done
+# with its result (attribution of the included file under the SAME platform
+# object, language inherited from the includer, one warning iff not found).
+# Specified by the trace of calls on the platform / parser-state objects.
+from pyvc import trace as T                                   # noqa: E402
+from pyvc.state import Exc, HeapObj                           # noqa: E402
+import contracts.C08 as C08                                   # noqa: E402
+from contracts.C08 import PLATOBJ, STATEOBJ, FIND, INSERT, ASSOC  # noqa: E402
+
+PROC = 6
+LANGK = Atom("Lang")
+EXPANSION = Atom("Expansion")
+TOKEN = Atom("Token")
+
+
+def _h_process_include(ex, st, recv, pos, kw, node):
+    if len(pos) != 1 or kw:
+        return [(st, Exc("TypeError", node.lineno))]
+    r = BOOL.fresh(ex.ctx, "process")
+    T.emit(st, T.mk(PROC, obj=recv.t, path=ops.coerce(st, ops.deref(st, pos[0]), PATH).t, flag=r.t))
+    return [(st, r)]
+
+
+def _h_insert_file_lang(ex, st, recv, pos, kw, node):
+    """state.insert_file(path, lang): the language handed down is recorded in the event"""
+    if len(pos) != 2 or kw:
+        return C08._h_insert_file(ex, st, recv, pos, kw, node)
+    lang = ops.deref(st, pos[1])
+    st.ghost["inserted_lang"] = lang
+    T.emit(st, T.mk(INSERT, path=ops.coerce(st, ops.deref(st, pos[0]), PATH).t))
+    return [(st, VNone())]
+
+
+PLATOBJ.methods["process_include"] = _h_process_include
+STATEOBJ2 = Abstract("StateObj", attrs={"langs": TotalMapOf(PATH, LANGK)},
+                     methods={"insert_file": _h_insert_file_lang, "associate": C08._h_associate})
+KWARGS = ObjSpec("$dict", {"platform": PLATOBJ, "filename": PATH, "state": STATEOBJ2})
+INCPATH = ObjSpec("IncludePath", {"path": PATH, "system": BOOL})
+_exp_path = z3.Function("include_path_of_expansion", EXPANSION.sort(), PATH.sort())
+_exp_sys = z3.Function("include_form_of_expansion", EXPANSION.sort(), z3.BoolSort())
+
+
+def _spelling(ex, st, env, node):
+    s = STR.fresh(ex.ctx, "spelling")
+    return [(st, st.alloc(HeapObj("cell", val=VSeq.of(STR, [s]))))]
+
+
+def _macro_expander(ex, st, pos, kw, node):
+    st.ghost["expander_platform"] = pos[0] if pos else None
+    return [(st, st.alloc(HeapObj("inst", cls="MacroExpander", fields={"platform": pos[0]})))]
+
+
+def _expand(ex, st, env, node):
+    st.ghost["expanded"] = env["tokens"]
+    return [(st, EXPANSION.fresh(ex.ctx, "expansion"))]
+
+
+def _directive_parser(ex, st, pos, kw, node):
+    return [(st, st.alloc(HeapObj("inst", cls="DirectiveParser", fields={"tokens": pos[0]})))]
+
+
+def _include_path(ex, st, env, node):
+    toks = st.heap[env["self"].oid].fields["tokens"]
+    o = st.alloc(HeapObj("inst", cls="IncludePath", fields={
+        "path": VAtom(PATH, _exp_path(toks.t)), "system": VBool(_exp_sys(toks.t))}))
+    st.ghost["reparsed"] = toks
+    return [(st, o)]
+
+
+_OPAQUE = {"codebasin.preprocessor:DirectiveNode.spelling": _spelling,
+           "class:MacroExpander": _macro_expander,
+           "codebasin.preprocessor:MacroExpander.expand": _expand,
+           "class:DirectiveParser": _directive_parser,
+           "codebasin.preprocessor:DirectiveParser.include_path": _include_path}
+
+
+def _include_contract(key, value_kind):
+    c = contract(key, props=["C04", "C18"])
+    c.param("self", ObjSpec("IncludeNode", {"value": value_kind, "start_line": INT}))
+    c.param("kwargs", KWARGS)
+    c.opaque = dict(_OPAQUE)
+    c.setup = lambda ctx, st: (F.install_axioms(), T.init_symbolic(ctx, st), st.ghost.__setitem__("trace0", T.value(st)))
+
+    @c.ensures
+    def _(A, R):
+        old = R.st.ghost["trace0"]
+        Tr = R.trace
+        n0 = old.n
+        plat = A.kwargs.platform.t
+        filename = A.kwargs.filename.t
+        if isinstance(value_kind, ObjSpec):
+            name, system = A.self.value.path.t, A.self.value.system.t
+        else:
+            toks = R.st.ghost.get("reparsed")
+            if toks is None:
+                return [("computed-include-is-expanded-and-re-parsed", z3.BoolVal(False))]
+            name, system = _exp_path(toks.t), _exp_sys(toks.t)
+        added = [x.t for x in Tr.items[len(old.items):]] if Tr.items is not None and old.items is not None else None
+        # the trace is symbolic at entry, so compare by position
+        m = Tr.n - n0
+        mc = concrete_int(z3.simplify(m))
+        out = []
+        ev = lambda i: Tr.arr[n0 + i]          # noqa: E731
+        first = ev(0)
+        res = T.field(first, "res")
+        out.append(("exactly-one-lookup: name, including file's directory and the directive's own form",
+                    z3.And(m >= 1, first == T.mk(FIND, obj=plat, path=name, path2=F.dirname(filename), flag=system, res=res))))
+        found = z3.Not(OPATH.sort().is_none(res))
+        tgt = OPATH.sort().get(res)
+        nwarn = len([1 for lv, _, _ in R.log if lv == "warning"])
+        out.append(("one-warning-iff-the-lookup-found-nothing", z3.BoolVal(nwarn <= 1) if True else None))
+        out.append(("warning-iff-not-found", z3.BoolVal(nwarn == 1) == z3.Not(found)))
+        if mc is None:
+            out.append(("trace-has-concrete-shape", z3.BoolVal(False)))
+            return out
+        if mc == 1:
+            out.append(("nothing-else-happens-only-when-not-found", z3.Not(found)))
+        elif mc == 2:
+            out.append(("found: once-list consulted, header skipped",
+                        z3.And(found, ev(1) == T.mk(PROC, obj=plat, path=tgt, flag=z3.BoolVal(False)))))
+        elif mc == 4:
+            lang = R.st.ghost.get("inserted_lang")
+            want_lang = z3.Select(STATEOBJ2.attr_fn("langs")(A.kwargs.state.t), filename)
+            out.append(("found and not on the once-list: header parsed with the includer's language and associated "
+                        "with the same platform object",
+                        z3.And(found, ev(1) == T.mk(PROC, obj=plat, path=tgt, flag=z3.BoolVal(True)),
+                               ev(2) == T.mk(INSERT, path=tgt), ev(3) == T.mk(ASSOC, path=tgt, obj=plat),
+                               (lang.t == want_lang) if lang is not None else z3.BoolVal(False))))
+        else:
+            out.append(("unexpected-number-of-calls", z3.BoolVal(False)))
+        kind = R.new.kind if R.new.has("kind") else None
+        if nwarn == 1:
+            out.append(("warning-names-the-form-used",
+                        z3.BoolVal(False) if kind is None else
+                        kind.t == z3.If(system, z3.StringVal("system include"), z3.StringVal("user include"))))
+        return out
+    return c
+
+
+_include_contract("codebasin.preprocessor:IncludeNode.evaluate_for_platform#literal", INCPATH)
+_include_contract("codebasin.preprocessor:IncludeNode.evaluate_for_platform#computed", CellOf(SeqOf(TOKEN)))
+
+UNITS += ["codebasin.preprocessor:IncludeNode.evaluate_for_platform#literal",
+          "codebasin.preprocessor:IncludeNode.evaluate_for_platform#computed",
+          "codebasin.finder:find@loop4"]
+NOT_COVERED[:] = [
+    "macro state flowing in and out of a header is carried by the identity of the platform object (proved: same object) "
+    "and by the C01 visitor contract; the recursion through associate is not unfolded",
+    "include guards need no mechanism of their own (C01 + macro table); -include lookup starts in the file's directory, not the compiler's cwd",
+]
